@@ -34,7 +34,7 @@ def rand_cfg(rnd, idx):
     av_aw = port_aw if shape == "equal" else (port_aw - log if shape == "down" else port_aw + log)
     base_words = rnd.choice([0, 0, rnd.randrange(0, 1 << av_aw)])
     return dict(shape=shape, av_dw=av_dw, port_dw=port_dw, ratio=ratio, port_aw=port_aw, av_aw=av_aw, base_words=base_words,
-                max_burst=rnd.choice([4, 16]), gaps=int(idx % 2 == 0))
+                max_burst=rnd.choice([4, 16]), gaps=int(idx % 2 == 0), inc=rnd.choice([1, 1, 1, 2]))
 
 
 def gen_ops(c, rnd, n):
@@ -43,10 +43,11 @@ def gen_ops(c, rnd, n):
     ops = []
     for _ in range(n):
         kind = rnd.choice(["sr", "sw", "sw", "br", "bw", "bw"])
-        beats = 1 if kind in ("sr", "sw") else rnd.randint(2, min(c["max_burst"], amax))
-        a = rnd.randrange(0, amax - beats + 1)
+        inc = c.get("inc", 1)
+        beats = 1 if kind in ("sr", "sw") else rnd.randint(2, max(2, min(c["max_burst"], (amax - 1) // inc + 1)))
+        a = rnd.randrange(0, amax - (beats - 1) * inc)
         if rnd.random() < 0.5 and ops:
-            a = min(max(0, ops[-1]["addr"] + rnd.randint(-2, 3)), amax - beats)
+            a = min(max(0, ops[-1]["addr"] + rnd.randint(-2, 3)), amax - 1 - (beats - 1) * inc)
         data = [rnd.getrandbits(c["av_dw"]) for _ in range(beats)]
         be = [(1 << nb) - 1 if rnd.random() < 0.6 else rnd.getrandbits(nb) for _ in range(beats)]
         ops.append(dict(we=int(kind in ("sw", "bw")), addr=a, beats=beats, data=data, be=be))
@@ -61,10 +62,10 @@ def simulate(c, ops, rnd):
     nb = c["av_dw"] // 8
     avl = avalon.AvalonMMInterface(data_width=c["av_dw"], adr_width=c["av_aw"])
     port = LiteDRAMNativePort("both", c["port_aw"], c["port_dw"])
-    dut = LiteDRAMAvalonMM2Native(avl, port, max_burst_length=c["max_burst"], base_address=c["base_words"] * nb)
+    dut = LiteDRAMAvalonMM2Native(avl, port, max_burst_length=c["max_burst"], base_address=c["base_words"] * nb, burst_increment=c.get("inc", 1))
     assert len(avl.address) == c["av_aw"], (len(avl.address), c)
     amask = (1 << c["av_aw"]) - 1
-    lines = ["%d %d %d 1" % (c["av_aw"], c["max_burst"], c["base_words"]), "0 0 0 0 0 0 0 0 0 0"]
+    lines = ["%d %d %d %d" % (c["av_aw"], c["max_burst"], c["base_words"], c.get("inc", 1)), "0 0 0 0 0 0 0 0 0 0"]
     obs, mon = [], []
     st = dict(stub_mem={}, lost=[], stuck=None, beats=0, rbeats=0, max_outstanding=0, gaps=0)
     init_rnd = random.Random(rnd.random())
@@ -103,7 +104,7 @@ def simulate(c, ops, rnd):
                     op = ops[k]
                     st["beats"] += 1
                     if op["we"]:
-                        evs.append("1 1 %d %d %d" % (op["addr"] + beat, op["data"][beat], op["be"][beat]))
+                        evs.append("1 1 %d %d %d" % (op["addr"] + beat * c.get("inc", 1), op["data"][beat], op["be"][beat]))
                         beat += 1
                         if beat == op["beats"]:
                             k += 1; beat = 0; gap = rnd.choice([0, 0, 1, 3, rnd.randint(0, 10)])
@@ -111,7 +112,7 @@ def simulate(c, ops, rnd):
                             gap = rnd.choice([1, 2, rnd.randint(3, 25)]); st["gaps"] += 1
                     else:
                         for j in range(op["beats"]):
-                            evs.append("1 0 %d 0 0" % (op["addr"] + j))
+                            evs.append("1 0 %d 0 0" % (op["addr"] + j * c.get("inc", 1)))
                         reads_expected += op["beats"]
                         k += 1; beat = 0; gap = rnd.choice([0, 0, 1, 3, rnd.randint(0, 10)])
                     presenting = False
@@ -144,8 +145,11 @@ def simulate(c, ops, rnd):
                         st["lost"].append("rdata.valid pulsed while rdata.ready was low (cycle %d)" % t)
                     pending_r = False
             if k >= len(ops):
-                tail += 1
-                if not queue and st["rbeats"] >= reads_expected and tail > 80:
+                # finished only when the front-end and the native side have been silent for a while (slow command acceptance
+                # can keep queued beats trickling out long after the last Avalon beat was accepted)
+                busy = prev is not None and (o_cv or o_wv or queue or pending_w is not None or pending_r)
+                tail = 0 if busy else tail + 1
+                if st["rbeats"] >= reads_expected and tail > 80:
                     break
             if t % 60 == 0:
                 p_cmd = rnd.choice([0.2, 0.7, 1.0]); lat = rnd.choice([0, 3, 9])
